@@ -10,7 +10,7 @@ From Scion Require Import Lib.Check Model.Segment Model.CombSpec Model.Combinato
 From Scion Require Import Proofs.CombinatorGraph Proofs.CombinatorRender Proofs.CombinatorFilter
   Proofs.CombinatorPaths Proofs.CombinatorIfs Proofs.CombSpec Proofs.CombinatorSpec
   Proofs.CombinatorSound Proofs.CombinatorComplete Proofs.CombinatorMain
-  Proofs.CombinatorProps Proofs.CombinatorOracle.
+  Proofs.CombinatorProps Proofs.CombinatorOracle Proofs.CombinatorExact.
 Import ListNotations.
 Import Segment Combinator.
 Local Open Scope N_scope.
@@ -142,3 +142,56 @@ Example C28_example :
   | _ => False
   end.
 Proof. vm_compute. split; reflexivity. Qed.
+
+(** Exact rendering (audit follow-up; strengthens C28_shape / C28_mtu_min, which
+    leave the edges existential).  ONE sequence [es] of edges, every edge one of
+    the AddEdge calls made for the input segments ([all_tuples (insegs ..)]),
+    determines the path: weight of an edge = AS hops from the segment's last
+    entry to the cut (+1 for the peering link on the down side); the hop fields
+    of a path segment are, in construction order, the cut entry's hop field (the
+    used peer entry's hop field at a peering cut) followed position by position by
+    the hop fields of the entries after the cut; the MTU is the minimum of 65535
+    and exactly the MTU fields of those entries ([entry_mtus], [cut_mtus]); the
+    weight is the sum of the edge weights. *)
+Theorem C28_exact : forall src dst ups cores downs fa ps p,
+  combine src dst ups cores downs fa = Done ps -> In p ps ->
+  exists (es : list edge) (mts : list (list N)),
+    Forall (fun e => In e (all_tuples (insegs ups cores downs))) es /\
+    (map ety es = [Up] \/ map ety es = [CoreT] \/ map ety es = [Down] \/
+     map ety es = [Up; CoreT] \/ map ety es = [Up; Down] \/ map ety es = [CoreT; Down] \/
+     map ety es = [Up; CoreT; Down]) /\
+    Forall (fun e => e_w e = edge_weight e) es /\
+    exact_slices es (p_slices p) mts /\
+    p_mtu p = fold_left N.min (concat mts) 65535 /\
+    p_weight p = sum_weight es.
+Proof. exact exact_lemma. Qed.
+Print Assumptions C28_exact.
+
+(** Order, with the weight pinned down: non-decreasing [p_weight], and [p_weight]
+    is the sum of the formula weights of the path's own edges. *)
+Theorem C28_sorted_by_edge_weight : forall src dst ups cores downs fa ps,
+  combine src dst ups cores downs fa = Done ps ->
+  StronglySorted (fun a b => p_weight a <= p_weight b) ps /\
+  forall p, In p ps -> exists es,
+    Forall (fun e => In e (all_tuples (insegs ups cores downs))) es /\
+    (exists mts, exact_slices es (p_slices p) mts) /\ p_weight p = sum_weight es.
+Proof.
+  intros * Hc. split; [eapply combine_sorted; eauto|]. intros p Hp.
+  destruct (exact_lemma _ _ _ _ _ _ _ _ Hc Hp) as [es [mts [H1 [_ [_ [H4 [_ H6]]]]]]]. eauto.
+Qed.
+Print Assumptions C28_sorted_by_edge_weight.
+
+(** The exact statement pins the example's peering path: MTU 1300, weight 2. *)
+Example C28_exact_example :
+  let e1 := mkEdge (v_ia 12) (v_peer 11 5 21 6) (mkIn Up 0 1 ex_up) 1 1 1 in
+  let e2 := mkEdge (v_peer 11 5 21 6) (v_ia 21) (mkIn Down 0 3 ex_down) 1 1 1 in
+  In e1 (all_tuples (insegs [(1, ex_up)] [(2, ex_core)] [(3, ex_down)])) /\
+  In e2 (all_tuples (insegs [(1, ex_up)] [(2, ex_core)] [(3, ex_down)])) /\
+  sum_weight [e1; e2] = 2 /\
+  fold_left N.min (cut_mtus e1 (nth 1 (sg_entries ex_up) (mkAS 0 (mkHop 0 0 0 []) 0 0 [])) ++
+                   entry_mtus (nth 2 (sg_entries ex_up) (mkAS 0 (mkHop 0 0 0 []) 0 0 [])) ++
+                   cut_mtus e2 (nth 1 (sg_entries ex_down) (mkAS 0 (mkHop 0 0 0 []) 0 0 []))) 65535 = 1300.
+Proof.
+  cbv zeta. repeat split; try (vm_compute; reflexivity);
+    vm_compute; repeat (first [left; reflexivity | right]).
+Qed.
